@@ -119,6 +119,9 @@ def fam_interop(rng, i, roles=ROLES):
     return {k: v for k, v in p.items() if not (isinstance(v, int) and v == 0 and k not in ("size", "bidi", "uni", "suni"))}
 
 
+FAMILIES = {"interop": fam_interop}      # same shape as e2e_props.FAMILIES (generator: (rng, i) -> params); runner = run_many above
+
+
 def fixed_scenarios():
     """scenarios that are part of every tier (regressions / findings reproduced on each run)"""
     return [
@@ -484,12 +487,40 @@ def cross_parse_tp(tr, vh_core=None, driver=None):
     return cross_parse_tp_many([tr], vh_core, driver)[0]
 
 
+INT_IDS = {0x01, 0x03, 0x04, 0x05, 0x06, 0x07, 0x08, 0x09, 0x0a, 0x0b, 0x0e}
+
+
+def tp_items(b):
+    out = []
+    i = 0
+    while i < len(b):
+        j = i
+        pid, i = qp.varint(b, i)
+        ln, i = qp.varint(b, i)
+        _, i = qp.take(b, i, ln)
+        out.append((pid, bytes(b[j:i])))
+    return out
+
+
+def tp_variants(b):
+    """the peer's block with ONE integer parameter left out (the RFC default then applies): still a block a conforming
+    peer may send; exercises the defaults that quiche itself never relies on (it always sends every parameter)"""
+    try:
+        items = tp_items(b)
+    except (qp.ParseError, IndexError):
+        return []
+    return [(pid, b"".join(x for k, (_, x) in enumerate(items) if k != idx)) for idx, (pid, _) in enumerate(items) if pid in INT_IDS]
+
+
 def cross_parse_tp_many(traces, vh_core=None, driver=None):
     """[(number of checks, [message])] per trace; the decoders are run once for all traces"""
     vh_core = vh_core or harness_bin("vh-core")
     driver = driver or DRIVER
     blocks = [tp_blocks(tr) for tr in traces]
     q_ops = [f"dec {q_role} {hexs(qb)}" for qb, sb, q_role in blocks if qb is not None]
+    for qb, sb, q_role in blocks:
+        if qb is not None:
+            q_ops += [f"dec {q_role} {hexs(v)}" for _, v in tp_variants(qb)]
     s_ops = [f"dec {'server' if q_role == 'client' else 'client'} {hexs(sb)}" for qb, sb, q_role in blocks if sb is not None]
     real = model = rfc = rfc_s = []
     if q_ops:
@@ -543,6 +574,21 @@ def _tp_judge(tr, blk, q_res, s_res):
             n += 1
             if got.get(field) != str(v):
                 bad.append(f"quiche was configured with {knob}={v} but s2n-quic decoded {field}={got.get(field)}")
+    # the same block with one integer parameter left out: the RFC default must be what s2n-quic assumes
+    for pid, v in tp_variants(qb):
+        real, model, rfc = q_res.get(f"dec {q_role} {hexs(v)}", ("?", "?", "?"))
+        n += 1
+        name = qp.TP_NAMES.get(pid, hex(pid))
+        if not (rfc.startswith("ok") and real.startswith("ok")):
+            bad.append(f"quiche's block without {name}: Lean RFC table {rfc[:20]}, real decoder {real[:60]}")
+            continue
+        got = dict(KV_RE.findall(real))
+        py = qp.parse_tp_block(v)
+        for k in INT_FIELDS:
+            if str(py.get(k)) != got.get(k):
+                bad.append(f"quiche's block without {name}: s2n-quic assumes {k}={got.get(k)}, RFC 9000 §18.2 says {py.get(k)}")
+        if real != model:
+            bad.append(f"quiche's block without {name}: real decoder and Lean model differ: {real[:120]} vs {model[:120]}")
     # s2n-quic's own block: the RFC table must accept it, and quiche's reading must be the RFC reading
     if sb is not None:
         rfc = s_res.get(f"dec {s_role} {hexs(sb)}", "?")
